@@ -131,8 +131,6 @@ pub trait MapValidVec<T: IsNone>: Vec1View<T> {
         let len = self.len();
         if len == 0 {
             return O::empty();
-        } else if len == 1 {
-            return O::full(len, (1.).cast());
         }
         // argsort at first
         let mut idx_sorted: Vec<_> = (0..len).collect_trusted_to_vec();
